@@ -546,6 +546,8 @@ func init() {
 		}
 		panic(engineErr("the harness does not define " + name))
 	}
+	// the text of an opaque query (used by callers that splice a sub-query into a predicate)
+	intrinsics["(*github.com/uptrace/bun.SelectQuery).String"] = func(fr *frame, a []value) value { return "SELECT /* opaque */" }
 	intrinsics["(*github.com/uptrace/bun.SelectQuery).Scan"] = func(fr *frame, a []value) value {
 		return call(fr.i, fr, 0, harnessFn(fr, "verifBunScan"), []value{bunLastModel})
 	}
